@@ -126,6 +126,85 @@ theorem no_base (env : Env) (cf : Cf δ) (st : Store δ) {sect key : Bytes} {s :
   unfold cfSet
   simp [hr.sect, hr.static, hr.key, hty, hro, hnr, getDest, hrel, hb]
 
+/-! ## tilde expansion -/
+
+theorem findIdx_first (p : UInt8 → Bool) : ∀ (a : Bytes) (b : UInt8) (c : Bytes),
+    (∀ x ∈ a, p x = false) → p b = true → List.findIdx? p (a ++ b :: c) = some a.length := by
+  intro a
+  induction a with
+  | nil => intro b c _ hb; simp [List.findIdx?_cons, hb]
+  | cons x t ih =>
+    intro b c ha hb
+    have hx : p x = false := ha x (by simp)
+    have := ih b c (fun y hy => ha y (by simp [hy])) hb
+    simp [List.findIdx?_cons, hx, this]
+
+theorem findIdx_none (p : UInt8 → Bool) : ∀ (a : Bytes), (∀ x ∈ a, p x = false) →
+    List.findIdx? p a = none := by
+  intro a
+  induction a with
+  | nil => intro _; rfl
+  | cons x t ih =>
+    intro ha
+    have hx : p x = false := ha x (by simp)
+    have := ih (fun y hy => ha y (by simp [hy]))
+    simp [List.findIdx?_cons, hx, this]
+
+/-- `~user/rest`: the passwd directory of `user`, then `/rest`; unknown user: failure -/
+theorem expandTilde_user (env : Env) (user rest : Bytes) (hu : user ≠ []) (hs : ∀ x ∈ user, x ≠ 47) :
+    expandTilde env (126 :: user ++ 47 :: rest) = (env.pwNam user).map (fun d => d ++ 47 :: rest) := by
+  have hidx : List.findIdx? (fun x : UInt8 => x == 47) ((126 :: user) ++ 47 :: rest)
+      = some (126 :: user).length :=
+    findIdx_first _ (126 :: user) 47 rest
+      (by intro x hx
+          rcases List.mem_cons.mp hx with rfl | hx
+          · decide
+          · simpa using hs x hx)
+      (by decide)
+  have hlen : user.length ≠ 0 := fun h => hu (List.eq_nil_of_length_eq_zero h)
+  unfold expandTilde
+  simp only [List.cons_append] at hidx ⊢
+  simp only [hidx, List.length_cons, Nat.add_sub_cancel, bne_iff_ne, ne_eq, hlen, not_false_eq_true,
+    if_true, List.drop_succ_cons, List.drop_zero]
+  have e1 : (user ++ 47 :: rest).take user.length = user := List.take_left' rfl
+  have e2 : (user ++ 47 :: rest).drop user.length = 47 :: rest := List.drop_left' rfl
+  rw [e1, e2]
+  cases env.pwNam user <;> rfl
+
+/-- `~user` without a slash -/
+theorem expandTilde_user_only (env : Env) (user : Bytes) (hu : user ≠ []) (hs : ∀ x ∈ user, x ≠ 47) :
+    expandTilde env (126 :: user) = env.pwNam user := by
+  have hidx : List.findIdx? (fun x : UInt8 => x == 47) (126 :: user) = none :=
+    findIdx_none _ (126 :: user)
+      (by intro x hx
+          rcases List.mem_cons.mp hx with rfl | hx
+          · decide
+          · simpa using hs x hx)
+  have hlen : user.length ≠ 0 := fun h => hu (List.eq_nil_of_length_eq_zero h)
+  unfold expandTilde
+  simp only [hidx, List.length_cons, Nat.add_sub_cancel, bne_iff_ne, ne_eq, hlen, not_false_eq_true,
+    if_true, List.drop_succ_cons, List.drop_zero]
+  have e1 : user.take user.length = user := List.take_length
+  have e2 : user.drop user.length = [] := List.drop_length
+  rw [e1, e2]
+  cases env.pwNam user <;> simp
+
+/-- `~` or `~/rest`: `$HOME`, or the passwd directory of the process's uid when HOME is unset -/
+theorem expandTilde_self (env : Env) (rest : Bytes) (hr : rest = [] ∨ rest.head? = some 47) :
+    expandTilde env (126 :: rest) =
+      (match env.home with | some h => some h | none => env.pwUid).map (fun d => d ++ rest) := by
+  unfold expandTilde
+  rcases hr with rfl | hr
+  · simp [List.findIdx?_cons]
+    cases env.home <;> cases env.pwUid <;> rfl
+  · cases rest with
+    | nil => simp at hr
+    | cons c t =>
+      have hc : c = 47 := by simpa using hr
+      subst hc
+      simp [List.findIdx?_cons]
+      cases env.home <;> cases env.pwUid <;> rfl
+
 /-! ## lookup tables -/
 
 theorem strcaseEq_trans {a b c : Bytes} (h1 : strcaseEq a b = true) (h2 : strcaseEq c b = true) :
